@@ -76,6 +76,8 @@ def run_kani(prop, tier, config, patterns, jobs=16, harness_timeout='20m', reach
         cmd += ['--no-assertion-reach-checks']
     for p in patterns:
         cmd += ['--harness', p]
+    if patterns and all(p.startswith('generated::proofs::') for p in patterns):
+        cmd.append('--exact')
     rc, out, dt = sh(cmd, cwd=HARNESS, timeout=6 * 3600)
     logf = os.path.join(BUILD, 'kani-%s-%s-%s.log' % (prop, tier, config))
     open(logf, 'w').write(out)
@@ -255,7 +257,7 @@ def run_e1(prop, tier, config, spec, parts, broken):
     insts = [i for i in scenarios.instances() if i['prop'] == prop and config in i['scen'].configs
              and (i['tier'] == 'q' or tier == 'thorough')]
     seed = int(os.environ.get('VERIF_SEED', '0') or 0)
-    if tier == 'quick' and seed:
+    if tier == 'quick' and seed and spec.get('seed_extras'):
         # the core quick set is fixed; a non-zero seed adds two instances of the thorough set, chosen by the seed
         extra = [i for i in scenarios.instances() if i['prop'] == prop and config in i['scen'].configs and i['tier'] == 't']
         for k in range(min(2, len(extra))):
@@ -266,6 +268,8 @@ def run_e1(prop, tier, config, spec, parts, broken):
     if not insts:
         return None
     log('-- E1/Kani config=%s: %d harnesses' % (config, len(insts)))
+    # exact harness names (a prefix pattern would also pick up instances registered for other configurations)
+    pats = ['generated::proofs::' + i['name'] for i in insts]
     r = run_kani(prop, tier, config, pats, jobs=spec.get('jobs', 16), reach=spec.get('thorough_reach', False), harness_timeout=spec.get('harness_timeout', '20m' if tier == 'quick' else '60m'))
     an = analyse_kani(r['json'])
     part = dict(engine='E1/kani', config=config, cmd=r['cmd'], wall_s=round(r['wall'], 1), harnesses={}, log=r['log'])
@@ -361,8 +365,20 @@ def check(prop, tier):
     if spec.get('differential'):
         differential(prop, tier, spec, parts, violations, broken, undecided, notes)
     else:
-        for config in spec.get('e1_configs', []) + (spec.get('e1_configs_thorough', []) if tier == 'thorough' else []):
-            r = run_e1(prop, tier, config, spec, parts, broken)
+        configs = spec.get('e1_configs', []) + (spec.get('e1_configs_thorough', []) if tier == 'thorough' else [])
+        results = {}
+        if spec.get('parallel_configs') and len(configs) > 1:
+            # independent builds: run them side by side, the cores shared between them
+            import concurrent.futures
+            spec_p = dict(spec, jobs=max(4, 16 // len(configs)))
+            plists = {c: [] for c in configs}
+            with concurrent.futures.ThreadPoolExecutor(max_workers=len(configs)) as ex:
+                futs = {c: ex.submit(run_e1, prop, tier, c, spec_p, plists[c], broken) for c in configs}
+                for c in configs:
+                    results[c] = futs[c].result()
+                    parts.extend(plists[c])
+        for config in configs:
+            r = results[config] if config in results else run_e1(prop, tier, config, spec, parts, broken)
             if r is None:
                 continue
             an, insts, part = r
